@@ -369,6 +369,7 @@ impl Scenario for C19 {
                 *slot2.lock().unwrap() = Some(res.map_err(|e| format!("{e:#}")));
             });
             stats.absorb_proc(&r);
+            stats.probe_max("max_decisions_in_one_run", r.decisions);
             stats.fault("fresh_hash_keys_per_process");
             stats.fault(&format!("num_threads_{t}"));
             hh.u64(r.history_hash);
